@@ -106,9 +106,9 @@ CHECKS.update({
    ref="DESIGN.md §3 C17"),
  'C18': dict(
    text="Lean theorems for every x-sorted curve over Q, n>=2: hullLower/hullUpper_indices (strictly increasing chain 0..n-1), _strict_turns, _supports (EVERY input point on or above / below EVERY "
-        "chain edge line - the full hull property, via exact orientation identities), hullUpper_eq_reflect; grahamScan_nodup_bounded, popGraham_nonempty. Tie: exact comparison of "
+        "chain edge line - the full hull property, via exact orientation identities), hullUpper_eq_reflect; graham_scan in general position (Props/C18G): grahamScan_head, _length, _strict_turns(+closing), _supports_cyclic, _supports_strict, grahamScan_is_hull, angLt_trans, sortAng_sorted; grahamScan_nodup_bounded. Tie: exact comparison of "
         "graham_scan_lower/upper/graham_scan with the model on integer/dyadic coordinates + brute-force hull specification on the real output (extreme vertices, boundary only, clockwise order in general position).",
-   note=TB + " graham_scan's full vertex-set characterisation is decided relationally by the brute-force specification on sampled point sets, not by a theorem (partial for that clause).",
+   note=TB + " graham_scan on DEGENERATE sets (collinear triples): 'every extreme vertex, only boundary points' is decided relationally by the brute-force specification on sampled point sets (partial for that clause); general position is a theorem.",
    tech="Lean 4 proof (stack = hull-of-prefix invariant with ring-checked orientation identities) + exact differential correspondence + brute-force relational spec",
    ref="DESIGN.md §3 C18"),
 })
